@@ -320,7 +320,7 @@ pub fn check_file_sequence(fgi: usize, bgi: usize, data: &[u8]) -> Result<(), (S
     drop(ro);
     if first.is_ok() {
         let _ = std::fs::remove_file(&path);
-        return Err(("c17:harness".into(), "a write on a read-only handle succeeded".into()));
+        return Err(("c17:File:error-swallowed".into(), format!("a coloured write on a read-only file handle returned {first:?}: the writer accepted nothing, yet no error reached the caller")));
     }
     let mut f = std::fs::OpenOptions::new().truncate(true).read(true).write(true).open(&path).map_err(h)?;
     let r = f.write_colored(fg, bg, data);
